@@ -122,9 +122,19 @@ pub fn gen_plan(rng: &mut Rng, pool: &Pool) -> Plan {
         for _ in 0..n_calls {
             let method = if threaded_run { *rng.pick(&sync_methods) } else { *rng.pick(&pool.methods) };
             let m = &MODEL[method as usize];
-            let mut vals = [0u64; 12];
+            let mut vals = [0u64; 16];
             for v in vals.iter_mut() {
                 *v = fresh(rng);
+            }
+            // value-dependent behaviour: some calls use boundary values and REPEATED values
+            // (argument order is then not observable for that call, everything else is)
+            if rng.chance(120) {
+                const SPECIAL: [u64; 10] = [0, 1, 2, 7, 255, 256, 65_535, 65_536, 1_000_000_007, (1 << 31) - 1];
+                for v in vals.iter_mut() {
+                    if rng.chance(600) {
+                        *v = *rng.pick(&SPECIAL);
+                    }
+                }
             }
             let flavor = if m.is_async && rng.chance(70) { 1 } else { 0 };
             calls.push(CallPlan { method, vals, flavor });
@@ -843,7 +853,7 @@ fn write_evidence(path: &Path, property: &str, tier: &str, seed: u64, pool: &Poo
 fn scripted_plan(method: u16, app: u8, cancel_after: Option<u32>, spurious: bool, max_leaf_mode: u32) -> Plan {
     // decisions: every body draw = max_leaf_mode-ish value; scheduler draws
     // are scripted through the cfg instead (p_cancel = 0, p_spurious = 0)
-    let mut vals = [0u64; 12];
+    let mut vals = [0u64; 16];
     for (i, v) in vals.iter_mut().enumerate() {
         *v = 1000 + 17 * i as u64 + method as u64 * 101;
     }
